@@ -94,7 +94,7 @@ def parseval_sides(x_pad, dt, fa_reported):
     x_pad = np.asarray(x_pad, dtype=float)
     N = len(x_pad)
     M = N // 2
-    a2 = np.abs(np.asarray(fa_reported)) ** 2
+    a2 = np.abs(np.asarray(fa_reported, dtype=complex)) ** 2      # complex64 bins: squares and sums in double precision
     if N % 2 == 0:
         sign = np.where(np.arange(N) % 2 == 0, 1.0, -1.0)
         extra = abs(dt * float(np.sum(x_pad * sign))) ** 2
